@@ -319,7 +319,9 @@ class GeoBoxBase:
             roi = numpy.s_[ty : ty + ny, tx : tx + nx]
 
         if isinstance(roi, int):
-            roi = (slice(roi, roi + 1), slice(None, None))
+            # keep the int: roi_normalise maps negative indices to ``n + i``,
+            # ``slice(-1, 0)`` would otherwise select a negative number of rows
+            roi = (roi, slice(None, None))
 
         if isinstance(roi, slice):
             roi = (roi, slice(None, None))
